@@ -219,6 +219,9 @@ pub struct PrettyItem {
     /// the marker line as printed, behind the bar and one blank
     #[serde(default)]
     pub marker: Option<String>,
+    /// character column of the bar `|` in the three excerpt lines (gutter, source line, marker line)
+    #[serde(default)]
+    pub bars: Option<(usize, usize, usize)>,
 }
 
 /// Pretty format:
@@ -268,6 +271,7 @@ pub fn parse_pretty(out: &str) -> Result<(Vec<PrettyItem>, usize), String> {
             excerpt: None,
             carets: None,
             marker: None,
+            bars: None,
         };
         // optional excerpt: three lines
         if k + 2 < lines.len() && lines[k].trim_start().starts_with('|') && lines[k].trim() == "|" {
@@ -286,6 +290,8 @@ pub fn parse_pretty(out: &str) -> Result<(Vec<PrettyItem>, usize), String> {
             let count = marks.iter().filter(|c| **c == '^').count();
             item.carets = first.map(|f| (f, count));
             item.marker = Some(marks.iter().collect());
+            let col = |l: &str| l.chars().position(|c| c == '|').unwrap_or(usize::MAX);
+            item.bars = Some((col(lines[k]), col(l2), col(l3)));
             item.excerpt = Some(text);
             k += 3;
         }
